@@ -35,6 +35,9 @@ type c11Req struct {
 	// RootFirst: another user of the same client machine (uid 0, or uid 2000 when the case's caller is root) issues a
 	// GETATTR immediately before this request, on the same connection when the case runs over one.
 	RootFirst bool `json:"root_first,omitempty"`
+	// Existing (create, UNCHECKED or GUARDED): the name is that of the seeded regular file f, so the request meets an
+	// object that is already there (and owned by somebody else)
+	Existing bool `json:"existing,omitempty"`
 }
 
 type c11Case struct {
@@ -71,6 +74,7 @@ func genC11(t *rapid.T) c11Case {
 			UidSel: rapid.IntRange(0, 2).Draw(t, "us"), GidSel: rapid.IntRange(0, 2).Draw(t, "gs"),
 			Mode:      rapid.Bool().Draw(t, "mode"),
 			RootFirst: rapid.IntRange(0, 2).Draw(t, "rootfirst") == 0,
+			Existing:  rapid.IntRange(0, 3).Draw(t, "existing") == 0,
 		})
 	}
 	return c
@@ -137,6 +141,12 @@ func runC11(tb stat.TB, c c11Case) {
 			}
 			v.ResetCalls()
 			name := fmt.Sprintf("new%d", i)
+			existing := rq.Op == "create" && rq.Existing && rq.How != nfsx.Exclusive
+			var pre vfs.Entry
+			if existing {
+				name = "f"
+				pre, _ = v.PeekLstat("/f")
+			}
 			var res *nfsx.Res
 			switch rq.Op {
 			case "update":
@@ -178,6 +188,17 @@ func runC11(tb stat.TB, c c11Case) {
 						}
 					}
 				}
+			}
+			if existing {
+				// the object was there already: whatever the reply, a caller that is not root has not given it another owner
+				nt = true
+				stat.Label("create_on_existing_file_"+statusName(res.Status), 1)
+				if post, ok := v.PeekLstat("/f"); ok && eu != 0 && (post.Uid != pre.Uid || post.Gid != pre.Gid) && (post.Uid != eu || post.Gid != eg) {
+					if stat.Violate(tb, id, check, "non-root-assigns-foreign-owner:create-existing", c, "%s on the existing file f (owned %d/%d): the backend inode is now owned %d/%d", what, pre.Uid, pre.Gid, post.Uid, post.Gid) {
+						return
+					}
+				}
+				continue
 			}
 			if rq.Op != "setattr" && res.Status == nfsx.OK {
 				nt = true
